@@ -271,13 +271,13 @@ theorem real_exit_cancels :
 /-- every return after a Lock without defer is preceded by the Unlock (core and hls server/muxer files);
 `muxer.initialize` hands its mutex to `muxer.runInner`, which releases it on every exit -/
 theorem real_unlock_on_all_paths : unlockOnAllPaths lockFns = true := by decide
-/-- Finding class `hlsMuxerLockCycle`: `muxer.runInner` holds `muxer.mutex` (handed over by
-`muxer.initialize`) while it calls `pathManager.AddReader`. -/
-def knownLockAcross : List (Nat × Nat) := [(LF_hls_muxer_runInner, MU_hls_muxer_mutex)]
-
-/-- no mutex is held across a blocking request to a loop — except the recorded pair -/
-theorem real_lock_across_request_known :
-    (lockAcrossRequest lockFns).all knownLockAcross.contains = true := by decide
+/-- Finding class `hlsMuxerLockCycle`: every lock-cycle hazard of the generated table is the HLS server
+loop taking `muxer.mutex` (in its API handlers) while a muxer function holds that mutex across a request
+to the path manager or a path. -/
+theorem real_lock_hazards_known :
+    (lockCycleHazards lockFns loopLockCalls).all
+      (fun h => h.1 == LP_hls_Server_run &&
+        (lockFns.any fun l => l.fn == h.2.1 && l.lockObj == LO_hls_muxer_mutex)) = true := by decide
 theorem real_levels_ok : levelsOK T = true := by decide
 theorem real_shutdown_ok : shutdownOK T = true := by decide
 
@@ -301,7 +301,7 @@ theorem c40_shutdown_terminates (S : ShutdownSys T) (σ : Config) (hI : Inv T σ
 the HLS loop answering an API/metrics query → `muxer.apiItem` / `apiSessionsList` / … (`muxer.mutex.RLock`,
 the mutex `muxer.initialize` locked and `muxer.runInner` still holds) → `muxer.runInner` →
 `pathManager.AddReader` (request to `pathManager.run`).  Found by the stress harness on the unmodified
-code; the lock half is the regenerated fact `lockAcrossRequest`. -/
+code; the lock half is the regenerated fact `lockCycleHazards`. -/
 
 /-- the full deadlock-freedom statement for a table -/
 def NoWaitCycleFull (T : List WaitRow) : Prop :=
